@@ -52,8 +52,6 @@ def canon(e):
     if isinstance(e, hpack.HPACKDecodingError) and isinstance(e, hpack.HPACKError) and isinstance(e, HPACKDecodingError):
         for nm in ('InvalidTableIndexError', 'InvalidTableSizeError', 'OversizedHeaderListError'):
             if isinstance(e, getattr(hpack, nm)):
-                if nm == 'InvalidTableIndexError' and not isinstance(e, hpack.InvalidTableIndex) and type(e).__name__ == 'InvalidTableIndex':
-                    return 'esc ' + type(e).__name__
                 return 'err ' + nm
         return 'err HPACKDecodingError'
     return 'esc ' + type(e).__name__
